@@ -401,13 +401,22 @@ Inductive sreach (fixed : bool) : sstate -> Prop :=
 
 (* ================================================================== Worker.Signal / Worker.Launch (WorkerFuture)
    Signal: out := Blocking(make(chan error)); go func() { defer out.Close(); out.Send().Ignore(ctx, wf.Run(ctx)) }()
-   WorkerFuture: val, err := pipe.Read(ctx): a value (rendezvous with the send), closed (nil), or the waiter's ctx   *)
+   WorkerFuture(ch): pipe := BlockingReceive(ch)
+     func(ctx) error { if ch == nil || pipe.ch == nil { return nil }
+                       val, err := pipe.Read(ctx)
+                       switch { case errors.Is(err, io.EOF): pipe.ch = nil; return nil     (channel closed)
+                                case val != nil: return val                                 (the worker's error)
+                                case err != nil: return err                                 (the WAITER's context: pipe.ch is kept)
+                                default: return nil } }
+   [v_armed] is `pipe.ch != nil`, the only state of the waiter object; every call of the waiter is a thread.
+   [clear = true] is the shape in which a context error disarms the future as well.                          *)
 Inductive vpc := VReady | VRunning | VSending | VClosing | VClosed.
-Inductive rpc := RIdle | RWaiting | RGot (v : Z) | RClosed | RCtx.
+Inductive rpc := RIdle | RWaiting | RGot (v : Z) | RClosed | RCtx | RNil.
 
 Record vstate := mkV {
   v_bg : vpc;
   v_closed : bool;
+  v_armed : bool;
   v_lctx : bool;               (* the context given to Signal/Launch is cancelled *)
   v_cancelled : Z -> bool;
   v_pc : Z -> rpc
@@ -417,39 +426,45 @@ Inductive vlabel :=
 | VBgStart | VBgFinish | VBgAbort | VBgClose | VLCancel
 | VWCall (t : Z) | VWRecv (t : Z) | VWClosed (t : Z) | VWCtx (t : Z) | VCancel (t : Z).
 
-Definition vinit : vstate := mkV VReady false false (fun _ => false) (fun _ => RIdle).
+Definition vinit : vstate := mkV VReady false true false (fun _ => false) (fun _ => RIdle).
 
 (* R = the error the background worker returns *)
-Definition vstep_exec (R : Z) (s : vstate) (l : vlabel) : option vstate :=
+Definition vstep_exec (clear : bool) (R : Z) (s : vstate) (l : vlabel) : option vstate :=
   match l with
-  | VBgStart => match v_bg s with VReady => Some (mkV VRunning (v_closed s) (v_lctx s) (v_cancelled s) (v_pc s)) | _ => None end
-  | VBgFinish => match v_bg s with VRunning => Some (mkV VSending (v_closed s) (v_lctx s) (v_cancelled s) (v_pc s)) | _ => None end
+  | VBgStart => match v_bg s with VReady => Some (mkV VRunning (v_closed s) (v_armed s) (v_lctx s) (v_cancelled s) (v_pc s)) | _ => None end
+  | VBgFinish => match v_bg s with VRunning => Some (mkV VSending (v_closed s) (v_armed s) (v_lctx s) (v_cancelled s) (v_pc s)) | _ => None end
   | VBgAbort =>     (* the send gives up because the launch context ended *)
-      match v_bg s with VSending => if v_lctx s then Some (mkV VClosing (v_closed s) (v_lctx s) (v_cancelled s) (v_pc s)) else None | _ => None end
-  | VBgClose => match v_bg s with VClosing => Some (mkV VClosed true (v_lctx s) (v_cancelled s) (v_pc s)) | _ => None end
-  | VLCancel => Some (mkV (v_bg s) (v_closed s) true (v_cancelled s) (v_pc s))
-  | VWCall t => match v_pc s t with RIdle => Some (mkV (v_bg s) (v_closed s) (v_lctx s) (v_cancelled s) (upd (v_pc s) t RWaiting)) | _ => None end
+      match v_bg s with VSending => if v_lctx s then Some (mkV VClosing (v_closed s) (v_armed s) (v_lctx s) (v_cancelled s) (v_pc s)) else None | _ => None end
+  | VBgClose => match v_bg s with VClosing => Some (mkV VClosed true (v_armed s) (v_lctx s) (v_cancelled s) (v_pc s)) | _ => None end
+  | VLCancel => Some (mkV (v_bg s) (v_closed s) (v_armed s) true (v_cancelled s) (v_pc s))
+  | VWCall t =>     (* if pipe.ch == nil { return nil } *)
+      match v_pc s t with
+      | RIdle => Some (mkV (v_bg s) (v_closed s) (v_armed s) (v_lctx s) (v_cancelled s) (upd (v_pc s) t (if v_armed s then RWaiting else RNil)))
+      | _ => None
+      end
   | VWRecv t =>     (* rendezvous: the sender is at its send, this receiver takes the value *)
       match v_pc s t, v_bg s with
-      | RWaiting, VSending => Some (mkV VClosing (v_closed s) (v_lctx s) (v_cancelled s) (upd (v_pc s) t (RGot R)))
+      | RWaiting, VSending => Some (mkV VClosing (v_closed s) (v_armed s) (v_lctx s) (v_cancelled s) (upd (v_pc s) t (RGot R)))
       | _, _ => None
       end
-  | VWClosed t =>
+  | VWClosed t =>   (* io.EOF: pipe.ch = nil *)
       match v_pc s t with
-      | RWaiting => if v_closed s then Some (mkV (v_bg s) (v_closed s) (v_lctx s) (v_cancelled s) (upd (v_pc s) t RClosed)) else None
+      | RWaiting => if v_closed s then Some (mkV (v_bg s) (v_closed s) false (v_lctx s) (v_cancelled s) (upd (v_pc s) t RClosed)) else None
       | _ => None
       end
-  | VWCtx t =>
+  | VWCtx t =>      (* the waiter's own context ended: return err; the future stays armed (unless [clear]) *)
       match v_pc s t with
-      | RWaiting => if v_cancelled s t then Some (mkV (v_bg s) (v_closed s) (v_lctx s) (v_cancelled s) (upd (v_pc s) t RCtx)) else None
+      | RWaiting => if v_cancelled s t
+                    then Some (mkV (v_bg s) (v_closed s) (if clear then false else v_armed s) (v_lctx s) (v_cancelled s) (upd (v_pc s) t RCtx))
+                    else None
       | _ => None
       end
-  | VCancel t => Some (mkV (v_bg s) (v_closed s) (v_lctx s) (upd (v_cancelled s) t true) (v_pc s))
+  | VCancel t => Some (mkV (v_bg s) (v_closed s) (v_armed s) (v_lctx s) (upd (v_cancelled s) t true) (v_pc s))
   end.
 
-Inductive vreach (R : Z) : vstate -> Prop :=
-| vreach_init : vreach R vinit
-| vreach_step s l s' : vreach R s -> vstep_exec R s l = Some s' -> vreach R s'.
+Inductive vreach (clear : bool) (R : Z) : vstate -> Prop :=
+| vreach_init : vreach clear R vinit
+| vreach_step s l s' : vreach clear R s -> vstep_exec clear R s l = Some s' -> vreach clear R s'.
 
 (* ================================================================== StartGroup (Operation.StartGroup / Worker.StartGroup / Add)
    wg.DoTimes(ctx, n, op): n times { wg.Inc(); go func() { defer wg.Done(); op(ctx) }() }
@@ -540,7 +555,8 @@ Inductive greach (n : nat) : gstate -> Prop :=
    EvStart/EvEnd carry the body's index and EvCall/EvRet the waiter.
    Each event is translated into the labels it stands for; the replay fails if a label is
    not enabled, i.e. if the observed run is not a run of the transition system. *)
-Inductive cev := EvCall (t : Z) | EvStart (t : Z) | EvEnd (t : Z) (v : Z) | EvRet (t : Z) (v : Z).
+Inductive cev := EvCall (t : Z) | EvStart (t : Z) | EvEnd (t : Z) (v : Z) | EvRet (t : Z) (v : Z)
+| EvCtx (t : Z).   (* a waiter returned because its own context ended *)
 
 Fixpoint steps {S L} (step : S -> L -> option S) (s : S) (ls : list L) : option S :=
   match ls with
@@ -575,6 +591,7 @@ Definition once_tr (R : Z) (s : ostate) (e : cev) : option ostate :=
       | Some s' => match o_pc s' t with ODone v' => if v' =? v then Some s' else None | _ => None end
       | None => None
       end
+  | EvCtx _ => None
   end.
 
 Definition acc_once (evs : list cev) : bool :=
@@ -622,6 +639,7 @@ Definition limit_tr (n : Z) (s : lstate) (e : cev) : option lstate :=
       | Some s' => match l_pc s' t with LDone v' _ => if v' =? v then Some s' else None | _ => None end
       | None => None
       end
+  | EvCtx _ => None
   end.
 
 Definition acc_limit (n : Z) (evs : list cev) : bool :=
@@ -655,6 +673,7 @@ Definition climit_tr (n : Z) (all : list cev) (s : cstate) (e : cev) : option cs
           end
       | _ => cstep_exec true n s (CEnd t)
       end
+  | EvCtx _ => None
   end.
 
 Definition acc_climit (n : Z) (evs : list cev) : bool :=
@@ -668,6 +687,7 @@ Definition lock_tr (s : mstate) (e : cev) : option mstate :=
   | EvCall _ | EvRet _ _ => Some s
   | EvStart t => steps mstep_exec s [MCall t; MAcquire t]
   | EvEnd t _ => mstep_exec s (MRelease t)
+  | EvCtx _ => Some s
   end.
 
 Definition acc_lock (evs : list cev) : bool :=
@@ -686,6 +706,7 @@ Definition group_tr (n : nat) (s : gstate) (e : cev) : option gstate :=
   | EvEnd _ _ => steps (gstep_exec n) s [GBFinish; GBDone]
   | EvCall t => gstep_exec n s (GWCall t)
   | EvRet t _ => gstep_exec n s (GWRet t)
+  | EvCtx t => steps (gstep_exec n) s [GCancel t; GWRetCtx t]
   end.
 
 Definition acc_group (n : nat) (evs : list cev) : bool :=
@@ -704,6 +725,7 @@ Definition signal_tr (s : sstate) (e : cev) : option sstate :=
   | EvEnd _ _ => steps (sstep_exec true) s [SBgFinish; SBgClose]
   | EvCall t => sstep_exec true s (SWCall t)
   | EvRet t _ => sstep_exec true s (SWRetSig t)
+  | EvCtx t => steps (sstep_exec true) s [SCancel t; SWRetCtx t]
   end.
 
 Definition acc_signal (evs : list cev) : bool :=
@@ -714,19 +736,26 @@ Definition acc_signal (evs : list cev) : bool :=
 
 Definition send_tr (R : Z) (s : vstate) (e : cev) : option vstate :=
   match e with
-  | EvStart _ => vstep_exec R s VBgStart
-  | EvEnd _ _ => vstep_exec R s VBgFinish
-  | EvCall t => vstep_exec R s (VWCall t)
+  | EvStart _ => vstep_exec false R s VBgStart
+  | EvEnd _ _ => vstep_exec false R s VBgFinish
+  | EvCall t => vstep_exec false R s (VWCall t)
   | EvRet t _ =>
-      match v_bg s with
-      | VSending => vstep_exec R s (VWRecv t)
-      | _ => None
+      match v_pc s t with
+      | RNil => Some s        (* the call found the future disarmed (possible only after the channel was closed) *)
+      | _ =>
+          match v_bg s with
+          | VSending => vstep_exec false R s (VWRecv t)                      (* takes the value *)
+          | VClosing => steps (vstep_exec false R) s [VBgClose; VWClosed t]  (* a further waiter: sees the closed channel *)
+          | VClosed => vstep_exec false R s (VWClosed t)
+          | _ => None
+          end
       end
+  | EvCtx t => steps (vstep_exec false R) s [VCancel t; VWCtx t]
   end.
 
 Definition acc_send (evs : list cev) : bool :=
   match replay (send_tr 0) vinit evs with
-  | Some s => match v_bg s with VClosing => true | _ => false end
+  | Some s => match v_bg s with VClosing | VClosed => true | _ => false end
   | None => false
   end.
 
@@ -748,6 +777,7 @@ Definition adt_tr (R : Z) (res : bool) (s : astate) (e : cev) : option astate :=
                    end
       | None => None
       end
+  | EvCtx _ => None
   end.
 
 Definition acc_adt (res : bool) (evs : list cev) : bool :=
